@@ -33,7 +33,7 @@ CONTRIBS = ("auto_header_unreserved", "font_ignorant_heights", "continuation_hea
 
 def strategy(tier):
     return st.one_of(
-        pgen.pag_recipe(fonts=True, max_rows=60, nrow_range=(1, 50), levels_max=3, subline_with_page_by=True, widths=True, nulls=True),
+        pgen.pag_recipe(fonts=True, max_rows=60, nrow_range=(1, 50), levels_max=3, subline_with_page_by=True, widths=True, nulls=True, glyph_mix=True),
         pgen.pag_recipe(fonts=False, max_rows=40, nrow_range=(2, 14), levels_max=2, nulls=True, widths=True, tall_headings=True),
         pgen.pag_recipe(fonts=False, max_rows=40, nrow_range=(6, 16), levels_max=2, strategies=("page_by", "page_by_new", "subline"), pageby_rows=("column", "first_row"),
                         tall_headings=True, fn_src=False, headers=("explicit", "none")),
@@ -42,7 +42,7 @@ def strategy(tier):
                         fn_src=False),
         # column header labels that wrap to 2-3 lines in their own cell
         pgen.pag_recipe(fonts=False, max_rows=40, nrow_range=(5, 16), levels_max=1, headers=("explicit", "multi"), tall_headers=True, max_height=2),
-        pgen.pag_recipe(fonts=False, max_rows=30, nrow_range=(2, 12), levels_max=1, headers=("explicit", "multi", "none")),
+        pgen.pag_recipe(fonts=False, max_rows=30, nrow_range=(2, 12), levels_max=1, headers=("explicit", "multi", "none"), glyph_mix=True),
         # tight pages: nothing reserved that is not rendered, so a single uncounted line shows up as an overflow
         pgen.pag_recipe(fonts=False, max_rows=40, nrow_range=(3, 12), levels_max=2, headers=("explicit", "none"), fn_src=False,
                         nulls=True, dividers=True, max_height=2, strategies=("page_by", "page_by", "plain", "subline"), subline_with_page_by=True),
@@ -65,6 +65,17 @@ def enumerate_cases(tier):
         rec = pgen.make_table([1] * n, groups, ndata=2, subline=sub, page_by_levels=1 if groups else 0, header=hdr,
                               footnote=fn, source=src, nrow=nrow)
         rec["strategy"] = strat
+        yield rec
+    # the same long text in a wide and in a narrow column of one row (1 line there, several here), unequal widths
+    from .. import metrics
+    for rel, nrow in itertools.product(([1, 4, 1], [1, 1, 4], [2, 5, 1], [1, 6, 2]), (6, 9, 12)):
+        wide = max(range(1, 3), key=lambda j: rel[j])
+        text = metrics.filler(1, pgen.COL_WIDTH * rel[wide] / sum(rel), 1, 9, prefix="same text " + " ".join(metrics.WORDS))
+        if text is None:
+            text = " ".join(metrics.WORDS * 2)
+        shared = {f"{i},{j}": text for i in range(1, 24, 2) for j in (1, 2)}
+        rec = pgen.make_table([1] * 24, None, ndata=3, header="explicit", nrow=nrow, rel_widths=rel, shared=shared)
+        rec["strategy"] = "plain"
         yield rec
     # a header label of 2 / 3 lines in each column of a 1-4 column table, pages filled exactly
     for ndata, k, nrow in itertools.product((1, 2, 3, 4), (2, 3), (6, 9)):
